@@ -43,9 +43,13 @@ ASSUMPTIONS = [
 ALPHABET = ["a", "b", " ", "\t", "\n", "\n", "\r\n", "\r\n", "\r", "\v", "\f", " ", "\u2028", "x y", "  ", "\n\n", "\r\n\r\n", "é"]
 # characters str.splitlines() (and universal-newline readers) treat as line boundaries but that are NOT terminators here:
 # inside a line they are content (whitespace for Trim when trailing), and they never end a line for the limiter
-EXOTIC = ["\x1c", "\x1d", "\x1e", "\x85", "\u2028", "\u2029", "\v", "\f", "\r"]
+EXOTIC = ["\x1c", "\x1d", "\x1e", "\x85", "\u2028", "\u2029", "\v", "\f", "\r", "\xa0", "\u3000", "\u200b", "\x1f", "\u2003"]
 SMALL = ["a", " ", "\n", "\r"]
 PROC_LISTS = [[]] + [[["trim"]]] + [[["limit", n]] for n in range(4)] + [[["limit", n], ["trim"]] for n in range(3)] + [[["trim"], ["limit", n]] for n in range(3)]
+# user-supplied processors next to the built-in ones (the documented extension point): "num" numbers every line it is
+# handed (stateful: shows lines fed twice, out of order, or a missing reset), "mark" tags non-empty lines (stateless),
+# "elide" drops lines containing "b" by returning two empty strings (the documented way)
+PROC_LISTS += [[["num"]], [["trim"], ["num"]], [["num"], ["limit", 1]], [["limit", 1], ["num"]], [["mark"], ["trim"]], [["elide"], ["limit", 0]], [["elide"], ["num"], ["trim"]]]
 
 
 def n_cases(tier: str) -> int:
@@ -118,6 +122,14 @@ def reference(text: str, procs: typing.List[list]) -> str:
                     state[i] = 0
                 if state[i] > p[1]:
                     line, term = "", ""
+            elif p[0] == "num":
+                line = "%d|%s" % (state[i], line)
+                state[i] += 1
+            elif p[0] == "mark":
+                line = line + "#" if line else line
+            elif p[0] == "elide":
+                if "b" in line:
+                    line, term = "", ""
         out.append(line + term)
     return "".join(out)
 
@@ -125,12 +137,35 @@ def reference(text: str, procs: typing.List[list]) -> str:
 def make_procs(procs: typing.List[list]) -> list:
     from nunavut._postprocessors import LimitEmptyLines, TrimTrailingWhitespace
 
+    from nunavut._postprocessors import LinePostProcessor
+
+    class Num(LinePostProcessor):
+        def __init__(self) -> None:
+            self.n = 0
+
+        def __call__(self, line_and_lineend: typing.Tuple[str, str]) -> typing.Tuple[str, str]:
+            self.n += 1
+            return ("%d|%s" % (self.n - 1, line_and_lineend[0]), line_and_lineend[1])
+
+        def reset(self) -> None:
+            self.n = 0
+
+    class Mark(LinePostProcessor):
+        def __call__(self, line_and_lineend: typing.Tuple[str, str]) -> typing.Tuple[str, str]:
+            return (line_and_lineend[0] + "#" if line_and_lineend[0] else line_and_lineend[0], line_and_lineend[1])
+
+    class Elide(LinePostProcessor):
+        def __call__(self, line_and_lineend: typing.Tuple[str, str]) -> typing.Tuple[str, str]:
+            return ("", "") if "b" in line_and_lineend[0] else line_and_lineend
+
     out = []
     for p in procs:
         if p[0] == "trim":
             out.append(TrimTrailingWhitespace())
-        else:
+        elif p[0] == "limit":
             out.append(LimitEmptyLines(p[1]))
+        else:
+            out.append({"num": Num, "mark": Mark, "elide": Elide}[p[0]]())
     return out
 
 
